@@ -1,6 +1,40 @@
 (* C11 - parcor_stable and the poles: if parcor_stable answers True then every
    complex root of the denominator lies strictly inside the unit circle (any
-   order), and the answer does not depend on a non-zero gain. *)
+   order), and the answer does not depend on a non-zero gain.
+
+   WHAT IS NOT PROVED (the converse for order >= 3), and exactly why.
+   Notation: A monic of order m (coefficients a_0 = 1 .. a_m, k = a_m),
+   Q(z) = sum a_i z^(m-i) (the pole polynomial), P(z) = sum a_i z^i = z^m Q(1/z).
+   The step-down gives  z (1 - k^2) Q'(z) = Q(z) - k P(z)  for the next Q'.
+   The converse "all roots of Q in |z| < 1  =>  |k| < 1 and all roots of Q' in
+   |z| < 1" needs, at EVERY level of the recursion, one of these equivalent facts:
+     (M1) Vieta over C: a monic real polynomial all of whose complex roots lie in
+          |z| < 1 has |constant coefficient| < 1   (k = +- product of the roots);
+     (M2) |P(z)| <= |Q(z)| on |z| >= 1 whenever Q has no root there (P/Q is a
+          finite Blaschke product; equivalently the maximum-modulus principle).
+   Both are statements about ALL roots of Q, i.e. they need the factorisation
+   Q = prod (z - c_i) over C (fundamental theorem of algebra).  Without it they
+   are not provable: a real polynomial with |a_m| >= 1 and NO complex root at all
+   would satisfy "all poles inside" vacuously, so the converse implies a
+   root-existence statement.  In fact it is EQUIVALENT to the FTA: for a monic
+   real p of degree m >= 1 with p(0) <> 0 take t with |t^m p(0)| >= 1; the
+   converse applied to t^m p(z/t) (constant coefficient of magnitude >= 1, so
+   parcor_stable is not True) yields a complex root of it, hence of p.  The algebra already here does not help: the energy
+   identity |Q'|^2.. only yields |z Q'(z) ..| comparisons carrying a factor |z|,
+   and removing that factor is the Schwarz lemma.  With explicit roots at the top
+   level (from_roots) one gets |k_m| < 1 and the root location of Q', but Q' is
+   then no longer given by roots, so the induction stops after one step.
+   Installed libraries: stdlib Reals / Coquelicot have no FTA.  MathComp
+   (field/algC.v: algebraic numbers are algebraically closed; real_closed/
+   complex.v: R[i] closed for a real closed field R) has it, but not for the
+   stdlib reals used in SpecR.v (the rcfType instance of R lives in
+   mathcomp-analysis, not installed); a proof over algC would need a second pole
+   predicate over algC, a Qc -> algC embedding with its morphism lemmas and a
+   translation of the list model to {poly algC}: judged out of reach in the
+   time available, not attempted in the tree.
+   Orders 1 and 2 are proved in full (ProofsOrder2.v, explicit roots via sqrt);
+   order >= 3 is covered by the correspondence family "stab" (poles known by
+   construction, link proved in ProofsRoots.v). *)
 From Coq Require Import List Bool Arith ZArith QArith Qcanon Qreals Reals Lia Lra Psatz.
 From AL Require Import Base.CaseLib C11.Lev C11.Model C11.Spec C11.Lib C11.ProofsStep C11.ProofsMain C11.SpecR.
 Import ListNotations.
